@@ -10,6 +10,8 @@ Monitors
   agree    the four entry points return the same MAC
   zeroise  non-interference: two different keys (and messages) of equal lengths, same chunking,
            leave byte-identical hmac context images (hash context + k_opad) after hmac_*_final
+  stack    the HMAC entry point runs on a private zero-filled stack (non-sanitizer builds); afterwards
+           no 32-byte prefix of K' xor ipad / K' xor opad may be found anywhere on that stack
   asan     out-of-bounds on exact-size key / message / MAC / context blocks; the key block is
            freed right after hmac_*_init, so a retained key pointer would be a use-after-free
 """
@@ -384,6 +386,75 @@ def judge_run(part, v, vname, force, tpls, results, storm):
         part["inconclusive"].append("crash storm in %s (force %s): run cut short" % (vname, FORCE_NAMES[force]))
 
 
+OP_HMAC_STACKSCAN = 9
+SCAN_KINDS = {"stream": 0, "oneshot": OP_HMAC_ONESHOT, "get": OP_HMAC_GET, "hex": OP_HMAC_HEX}
+NEEDLE = 32
+
+
+def pads(alg, key):
+    b = BLOCK[alg]
+    k = key if len(key) <= b else c04.ref_digest(alg, key)
+    k = k + bytes(b - len(k))
+    return bytes(x ^ 0x36 for x in k), bytes(x ^ 0x5c for x in k)
+
+
+def scan_cases(alg, slice_idx, seed):
+    b = BLOCK[alg]
+    rng = Rng(PROP, "stackscan", seed, alg, slice_idx)
+    out = []
+    for kl in (1, 16, 33, b - 1, b, b + 1, 2 * b + 3, rng.below(3 * b) + 1):
+        for entry in ("stream", "oneshot", "get", "hex"):
+            # no zero key byte: a zero byte makes the pad equal to the public constant 0x36/0x5c there, and
+            # a run of the bare constant (e.g. a spilled vector register) is not a keyed pad
+            key = bytes(rng.below(255) + 1 for _ in range(kl))
+            n = rng.below(2 * b + 2)
+            msg = bytes(rng.below(255) + 1 for _ in range(n)) if entry == "hex" else rng.bytes(n)
+            ip, op = pads(alg, key)
+            needles = [ip[:NEEDLE], op[:NEEDLE]]
+            pay = (bytes((OP_HMAC_STACKSCAN, alg, 0, SCAN_KINDS[entry])) + struct.pack("<I", len(key)) + key +
+                   struct.pack("<I", len(msg)) + msg + bytes((len(needles),)) +
+                   b"".join(struct.pack("<I", len(x)) + x for x in needles))
+            out.append({"alg": alg, "entry": entry, "kl": kl, "n": n, "key": key.hex(), "msg": msg.hex(),
+                        "payload": pay, "expect": ref_hmac(alg, key, msg)})
+    return out
+
+
+def judge_scan(part, v, vname, cases, results):
+    cnt = part["counters"]
+    for t, obs in zip(cases, results):
+        ename = "hmac_%s.%s" % (ALG_NAMES[t["alg"]], t["entry"])
+        pub = {k: t[k] for k in ("alg", "entry", "kl", "n", "key", "msg")}
+        pub["scan"] = True
+        w = {"variant": vname, "build": v["spec"], "case": pub, "seed": common.seed()}
+        if isinstance(obs, common.Crash):
+            part["violations"].append((common.crash_key(obs, ename + ".stackscan"),
+                                       dict(w, observed="crash %s rc=%s" % (obs.kind, obs.returncode), report=obs.report[-2000:])))
+            continue
+        r = common.R(obs)
+        st = r.u8()
+        if st == 3:
+            cnt["stackscan_unsupported"] = cnt.get("stackscan_unsupported", 0) + 1
+            continue
+        if st != 0:
+            part["violations"].append(("harness:%s:stackscan-status" % ename, dict(w, observed="status %d" % st)))
+            continue
+        mac = r.blob()
+        found = [r.i64(), r.i64()]
+        part["evaluations"] += 1
+        cnt["stack_scans"] = cnt.get("stack_scans", 0) + 1
+        cnt["stack_scans_" + ("long-key" if t["kl"] > BLOCK[t["alg"]] else "short-key")] = \
+            cnt.get("stack_scans_" + ("long-key" if t["kl"] > BLOCK[t["alg"]] else "short-key"), 0) + 1
+        got = bytes.fromhex(mac[:-1].decode()) if t["entry"] == "hex" else mac
+        if got != t["expect"]:
+            part["violations"].append(("oracle:%s:wrong-mac:on-private-stack" % ename,
+                                       dict(w, expected=t["expect"].hex(), observed=got.hex())))
+        for which, d in zip(("ipad", "opad"), found):
+            if d >= 0:
+                part["violations"].append(("stack:%s:keyed-pad-left-on-stack:%s" % (ename, which),
+                                           dict(w, observed="%d-byte prefix of K' xor %s found %d bytes below the top of "
+                                                "the private stack after the call returned" % (NEEDLE, which, d))))
+
+
 def worker(job):
     part = common.new_part()
     alg, tier = job["alg"], job["tier"]
@@ -398,6 +469,9 @@ def worker(job):
         for f in forced_selectors(v["flavor"], v["info"], alg):
             res, storm = run_batched(v["exe"], [with_force(full[i], f) for i in red_idx])
             judge_run(part, v, vname, f, red_tpls, res, storm)
+        if v["spec"].get("san") == "plain":
+            sc = scan_cases(alg, job["slice"], job["seed"])
+            judge_scan(part, v, vname, sc, common.run_cases(v["exe"], [t["payload"] for t in sc]))
     part["counters"]["templates"] = len(tpls)
     return c04.compact(part)
 
@@ -447,7 +521,7 @@ def run(tier):
         if not report.extra.get("cases@" + vname):
             report.inconclusive.append("variant %s produced no judged case" % vname)
     for need in ("keyclass_k=0", "keyclass_k=B-1", "keyclass_k=B", "keyclass_k=B+1", "keyclass_2B<k<=3B",
-                 "images_compared", "reuse_cases", "entry_point_agreements", "dispatch_gost512_avx",
+                 "images_compared", "stack_scans", "reuse_cases", "entry_point_agreements", "dispatch_gost512_avx",
                  "dispatch_sha1_shani", "dispatch_sha256_shani", "dispatch_sha1_sse", "dispatch_gost256_sse"):
         if not report.extra.get(need):
             report.inconclusive.append("monitor saw nothing: " + need)
@@ -466,6 +540,19 @@ def replay(path):
         print("replay: variant does not build:", e)
         return 2
     t = w["case"]
+    if t.get("scan"):
+        key, msg = bytes.fromhex(t["key"]), bytes.fromhex(t["msg"])
+        ip, op = pads(t["alg"], key)
+        pay = (bytes((OP_HMAC_STACKSCAN, t["alg"], 0, SCAN_KINDS[t["entry"]])) + struct.pack("<I", len(key)) + key +
+               struct.pack("<I", len(msg)) + msg + bytes((2,)) +
+               b"".join(struct.pack("<I", NEEDLE) + x[:NEEDLE] for x in (ip, op)))
+        part = common.new_part()
+        tt = dict(t, payload=pay, expect=ref_hmac(t["alg"], key, msg))
+        judge_scan(part, {"spec": w["build"]}, w["variant"], [tt], common.run_cases(exe, [pay]))
+        for k, ww in part["violations"]:
+            print(" %s: %s" % (k, ww.get("observed")))
+        print(" verdict: %s" % ("still failing" if part["violations"] else "not reproduced"))
+        return 1 if part["violations"] else 0
     force = w.get("force", 0)
     alg = t["alg"]
     key, msg = make_msg(_spec(t["kspec"])), make_msg(_spec(t["mspec"]))
